@@ -126,14 +126,22 @@ def h_sidereal(ctx):
 
 
 @P.harness("apparent_sidereal_time/equation-of-equinoxes", functions=[EPOCH + ".apparent_sidereal_time"],
+           cases=[dict(form=f) for f in ("float-float", "Angle-Angle", "Angle-float", "float-Angle")],
            axioms=("trig-range",), crosscheck=10)
-def h_apparent(ctx):
+def h_apparent(ctx, form):
     j = ctx.dyadic("jde", 0, 5400000, 20, sample=(0, 5.4e6))
     eps = ctx.real("eps", 22, 24.5)
     dpsi_as = ctx.real("dpsi_arcsec", -18.6, 18.6)
     dpsi = dpsi_as / 3600
     e = epoch_at(ctx, j)
-    a = ctx.method(e, "apparent_sidereal_time", eps, dpsi)
+
+    def as_angle(v):
+        o = ctx.obj("Angle")
+        ctx.setfield(o, "_deg", v)
+        ctx.setfield(o, "_tol", 1e-10)
+        return o
+    f_eps, f_dpsi = form.split("-")
+    a = ctx.method(e, "apparent_sidereal_time", as_angle(eps) if f_eps == "Angle" else eps, as_angle(dpsi) if f_dpsi == "Angle" else dpsi)
     m = ctx.method(e, "mean_sidereal_time")
     diff_s = (a - m) * 86400
     if ctx.native:
@@ -141,6 +149,9 @@ def h_apparent(ctx):
                abs(diff_s - dpsi * 3600 * math.cos(math.radians(eps)) / 15) < 1e-4)
         ctx.vc("|difference| < 1.24 s", abs(diff_s) < 1.24)
     else:
+        from pyvc.api import cos_, radians_
+        ctx.vc("difference == dpsi[arcsec] cos(eps) / 15 seconds, for numbers and for Angles alike",
+               diff_s * 15 == dpsi_as * cos_(radians_(eps)))
         ctx.vc("|difference| <= |dpsi|[arcsec] / 15 seconds (|cos| <= 1)  < 1.24 s",
                and_(diff_s <= 1.24, diff_s >= -1.24))
 
